@@ -91,11 +91,20 @@ func (s *HistoWriter) fullRender() {
 	}
 }
 
+// padVisible pads s with blanks to width visible characters: the unit the key column is
+// measured in (color.StrLen), so that keys containing color codes still line up
+func padVisible(s string, width int) string {
+	if pad := width - color.StrLen(s); pad > 0 {
+		return s + strings.Repeat(" ", pad)
+	}
+	return s
+}
+
 func (s *HistoWriter) writeLine(line int, key string, val int64) {
 	var sb strings.Builder
 	sb.Grow(128)
 
-	sb.WriteString(color.Wrapf(color.Yellow, "%-[2]*[1]s", key, s.textSpacing))
+	sb.WriteString(color.Wrap(color.Yellow, padVisible(key, s.textSpacing)))
 	sb.WriteString("    ")
 	fmt.Fprintf(&sb, "%-10s", s.Formatter(val, 0, s.maxVal))
 	if s.ShowPercentage && s.total > 0 {
